@@ -342,6 +342,16 @@ def agent_user_for(level, user=USER, auth_pw=AUTH_PW, priv_pw=PRIV_PW,
     return agent_mod.User(name, (hashname, auth_pw))
 
 
+def initial_credentials(via, community="public", cred_kwargs=None):
+    """Credentials a client starts its life with before it is switched to the intended
+    ones.  via = (how, level[, "same"]): with "same" everything the two families can
+    share IS shared (the same community string for v1/v2c, the same user and passwords
+    for the v3 levels), so that the two configurations only differ in their family."""
+    if len(via) > 2 and via[2] == "same":
+        return credentials_for(via[1], community=community, **dict(cred_kwargs or {}))
+    return credentials_for(via[1], community="initial")
+
+
 class World:
     """A client wired through a recording seam to a fresh reference agent."""
 
@@ -371,7 +381,7 @@ class World:
         self.seam = Seam(self.responder)
         if via is not None:
             self.client = Client(
-                "192.0.2.1", credentials_for(via[1], community="initial"), sender=self.seam, **dict(client_kwargs or {})
+                "192.0.2.1", initial_credentials(via, community, cred_kwargs), sender=self.seam, **dict(client_kwargs or {})
             )
             self.client.configure(credentials=self.creds)
         else:
